@@ -31,6 +31,24 @@ namespace svp
   bool operator== (const NM&, const NM&);
   bool operator<  (const NM&, const NM&);
 
+  // NA: nothrow move CONSTRUCTION but throwing move ASSIGNMENT and swap (a helper whose noexcept looks
+  // at the move constructor only is wrong for this flavour)
+  struct NA
+  {
+    NA ();
+    NA (int);
+    NA (const NA&);
+    NA (NA&&) noexcept;
+    NA& operator= (const NA&);
+    NA& operator= (NA&&) noexcept (false);
+    NA& operator= (int);
+    ~NA ();
+    int v;
+  };
+  void swap (NA&, NA&) noexcept (false);
+  bool operator== (const NA&, const NA&);
+  bool operator<  (const NA&, const NA&);
+
   // TM: throwing move (and move assignment, and swap), copyable
   struct TM
   {
